@@ -10,6 +10,8 @@ ENGINES = [
      "kind_free_text": "implementation-shaped TLA+ model of make_expression, prioritized_indices_flat, eval_binary, compile; TLC refinement check"},
     {"name": "deep-model", "path": "spec/DeepImpl.tla spec/MC_Deep.tla", "serves_properties": ["C02", "C03"],
      "kind_free_text": "implementation-shaped TLA+ model of the deep parser, DeepEx::compile, flatten_vecs, flatex_to_deepex; TLC refinement check"},
+    {"name": "lexer-model", "path": "spec/LexImpl.tla spec/MC_Lex.tla spec/LexTables.tla spec/MC_Call.tla spec/Judge_Lex.tla", "serves_properties": ["C08", "C13", "C06", "C07"],
+     "kind_free_text": "implementation-shaped TLA+ model of tokenize_and_analyze and check_parsed_token_preconditions; TLC equivalence with the abstract lexer on all short texts; call-form refinement on trees"},
     {"name": "recorder", "path": "harness/", "serves_properties": ["C01", "C02", "C03"],
      "kind_free_text": "Rust crate driving the real exmex with a free term algebra as data type and run-time operator tables; records observations as ndjson"},
     {"name": "judge", "path": "spec/Judge_Expr.tla", "serves_properties": ["C01", "C02", "C03"],
@@ -32,5 +34,13 @@ CLAIMS = {
                 text="Flat/deep parsing and every conversion word f2d, fwo2d, d2f, f2d2f, d2f2d are compared with the reference meaning (variables + value modulo AC); "
                      "for strings outside the grammar all accepting entry points must agree; operator listings are judged against the listing specification.",
                 note=BASE_NOTE + "Listings are judged on sampled (1/6) direction-A records and on every direction-B record."),
+    "C08": dict(category=MC, technique="TLA+ desugaring rule + TLC check of the tokenizer model (stack of pending calls) on all trees x call-form subsets and on all texts <= 5 over a call alphabet + replay into the real parsers",
+                text="Every tree with <= 4 leaves over the call-form table, every non-empty subset of its binary operators written as op(l, r) (nested in first and second arguments, under unaries, inside extra parentheses) "
+                     "is (1) shown to desugar to the tree in the abstract spec, (2) shown to be tokenised to exactly the desugared tokens by the tokenizer model, (3) replayed through FlatEx/DeepEx and judged.",
+                note=BASE_NOTE),
+    "C13": dict(category=MC, technique="declarative TLA+ lexer vs implementation-shaped tokenizer model checked by TLC on all texts <= L over prefix-family alphabets + replay of every text through the real tokenizer hook + TLC-judged random name mutations",
+                text="All texts up to length 5-6 over four prefix families (l/lo/log/log2/log10, </<=/<</==, s/si/sin/sinh + constants E/e/PI/pi, braces/literals/Greek) are tokenised by the real tokenizer and compared with the abstract longest-exact-match rules; "
+                     "random texts over the real float and value tables are judged at token level and at API level.",
+                note="Trusted: TLC, Lex.tla. Unterminated braces, empty braces and alphabetic binary names glued to identifiers are unconstrained. Code points abstract bytes in the model; the real code sees real UTF-8."),
 }
 NOT_YET = {}
